@@ -9,11 +9,12 @@ Open Scope N_scope.
 
 (* one (identity, record) pair handed to VerifyEntry / digestProposalEntry:
    what VerifyEntry said, the digest the code computed, the pre-image bytes the
-   harness rebuilt from the same fields and whether Go's sha256 of those bytes
-   equals that digest *)
+   harness rebuilt from the same fields (printed for the first probe of a case
+   only, to keep case files small) and whether Go's sha256 of those bytes equals
+   that digest (every probe) *)
 Record c05_probe := Probe {
   p_entry : entry; p_record : record;
-  p_verify : bool; p_digest : bytes; p_pre : bytes; p_pre_ok : bool }.
+  p_verify : bool; p_digest : bytes; p_pre : option bytes; p_pre_ok : bool }.
 
 Record c05_case := C05Case {
   c_manifest : manifest; c_records : list record;
@@ -46,7 +47,8 @@ Fixpoint self_verify (H : bytes -> bytes) (es : list entry) (rs : list record) :
 Definition probe_mismatch (p : c05_probe) : bool :=
   let pre := preimage (p_entry p) (p_record p) in
   let d := sha256 pre in
-  negb (bytes_eqb pre (p_pre p) && p_pre_ok p && bytes_eqb d (p_digest p)
+  negb (match p_pre p with Some b => bytes_eqb pre b | None => true end
+        && p_pre_ok p && bytes_eqb d (p_digest p)
         (* verify_entry only applies H to this pre-image; reuse its digest *)
         && Bool.eqb (verify_entry (fun _ => d) (p_entry p) (p_record p)) (p_verify p)).
 
@@ -129,3 +131,25 @@ Definition C05_monitor (c : c05_case) : N :=
   if seal_ok c && forallb probe_ok (c_probes c)
      && all_pairs binds (sealed_triples c ++ probe_triples c)
   then 0 else 1.
+
+(* ---- the case the MODEL produces for an input (used by the theorem that links
+   the monitor to the model: C05_monitor (model_case ...) = 0 unless H misbehaves) *)
+Section ModelCase.
+  Variable H : bytes -> bytes.
+
+  Definition model_probe (er : entry * record) : c05_probe :=
+    Probe (fst er) (snd er) (verify_entry H (fst er) (snd er))
+          (digest_proposal_entry H (fst er) (snd er)) (Some (preimage (fst er) (snd er))) true.
+
+  Definition model_case (m : manifest) (rs : list record) (prs : list (entry * record)) : c05_case :=
+    let s := seal_proposal_manifest H m rs in
+    C05Case m rs s true
+      (match s with Some (m', _) => structurally_valid m' | None => false end)
+      (match s with Some (m', _) => valid_for m' (m_base m) (Z.of_nat (length rs)) | None => false end)
+      (match s with Some (_, es) => self_verify H es rs | None => [] end)
+      (map model_probe prs).
+End ModelCase.
+
+Definition manifest_in_domain (m : manifest) : bool :=
+  u64 (m_epoch m) && u64 (m_term m) && u64 (m_fence m) && u64 (m_base m) && u64 (m_last m)
+  && u64 (m_prev_term m) && u64 (m_prev_index m) && len32 (m_cmd m) && len32 (m_prev_digest m).
